@@ -966,3 +966,83 @@ func ruleC06h(c *Ctx) []*report.Result {
 	}
 	return []*report.Result{r}
 }
+
+func init() { register("C16.f", ruleC16f) }
+
+// Rule C16.f — a nested printer inherits the buffer and the unsafe override,
+// nothing else. A SafeFormatter that calls Print/Printf on the printer it was
+// handed gets a fresh printer that borrows the caller's buffer. What that
+// printer starts with, besides what newPrinter gives every printer, is the
+// sanctioned inheritance: the buffer (copied in, copied back) and the override
+// when it is "unsafe". Anything else copied from the caller — the armed state
+// of %w capture, a flag — makes the nested call behave differently from the
+// same call at top level. In every function that copies another printer's
+// buffer into a printer obtained in that function, the only fields of the
+// fresh printer that are assigned are the buffer and the override.
+func ruleC16f(c *Ctx) []*report.Result {
+	r := report.NewResult("C16.f", "in every function that sets up a nested printer (a printer obtained there into which another printer's buffer is copied) the only fields of the fresh printer assigned, by that function or the helpers it calls on it before printing, are the buffer and the override: a nested Print/Printf differs from a top-level one by nothing else (in particular it is not armed for %w by its caller)", 1)
+	n := 0
+	for _, fn := range c.P.ModuleFunctions() {
+		if pkgPathOf(fn) != pkgRfmt || fn.Blocks == nil {
+			continue
+		}
+		// fresh printers of this function
+		fresh := map[ssa.Value]bool{}
+		for _, b := range fn.Blocks {
+			for _, ins := range b.Instrs {
+				if call, ok := ins.(*ssa.Call); ok {
+					if g := call.Common().StaticCallee(); g != nil && g.Name() == "newPrinter" && pkgPathOf(g) == pkgRfmt {
+						fresh[call] = true
+					}
+				}
+			}
+		}
+		if len(fresh) == 0 {
+			continue
+		}
+		type st struct {
+			field string
+			pos   token.Pos
+		}
+		var stores []st
+		copiesBuf := false
+		for _, b := range fn.Blocks {
+			for _, ins := range b.Instrs {
+				s, ok := ins.(*ssa.Store)
+				if !ok {
+					continue
+				}
+				fa, ok := s.Addr.(*ssa.FieldAddr)
+				if !ok || !fresh[fa.X] {
+					continue
+				}
+				name := fieldName(fa)
+				stores = append(stores, st{name, s.Pos()})
+				if name == "buf" {
+					if loadedField(s.Val) == "buf" {
+						copiesBuf = true
+					}
+				}
+			}
+		}
+		if !copiesBuf {
+			continue // a top-level entry point: arming %w there is HelperForErrorf's job
+		}
+		n++
+		construct := shortFn(fn.String()) + " / nested printer inherits buffer and override only"
+		okAll := true
+		for _, s := range stores {
+			if s.field != "buf" && s.field != "override" {
+				okAll = false
+				r.Fail(construct, c.P.Pos(s.pos), "the nested printer's field "+s.field+" is assigned from outside newPrinter: the nested call no longer starts like a top-level one (a %w inside a nested Printf would be captured into a slot nobody reads and rendered like %v, where Sprintf reports a bad verb)", nil, "")
+			}
+		}
+		if okAll {
+			r.Ok(construct)
+		}
+	}
+	if n == 0 {
+		r.Undecide("no function sets up a nested printer (Print/Printf of the SafePrinter were expected)")
+	}
+	return []*report.Result{r}
+}
